@@ -50,6 +50,8 @@ def _ops(keys, values, cid=None):
                 ('setdefault', k, values[1]), ('setitem', k, values[0]), ('setitem', k, values[3])]
         if cid not in ('dict', 'null'):
             ops.append(('setitem_bad', k))      # in memory every value "encodes
+    if cid not in ('dict', 'null'):
+        ops.append(('setitem_bad_then_other_handle', keys[0]))
     ops += [('len',), ('keys',), ('values',), ('items',), ('iter',), ('popitem',), ('clear',), ('copy',), ('copy_named',), ('eq',), ('eq_none',),
             ('update', ((keys[0], values[2]), (keys[-1], values[4]))), ('update_kw',),
             ('popkeys', (keys[0], keys[1])), ('popkeys', (keys[0], keys[1]), 'dflt')]
@@ -93,7 +95,7 @@ def apply_model(m, op):
             return 'ANY-ITEM', m
         if name == 'clear':
             return None, {}
-        if name in ('copy', 'copy_named', 'eq', 'eq_none'):
+        if name in ('copy', 'copy_named', 'eq', 'eq_none', 'setitem_bad_then_other_handle'):
             return True, m
         if name == 'update':
             m.update(dict(op[1]))
@@ -137,6 +139,17 @@ def apply_real(a, op, ctx):
         except Exception:       # noqa -- any exception is acceptable for a value that cannot be encoded
             return 'SOME-ERROR'
         return 'SOME-ERROR' if ctx['cid'] in ('null', 'dict') else 'ACCEPTED'
+    if name == 'setitem_bad_then_other_handle':
+        # after a failed store the archive is fully usable -- also through another handle on the same store
+        try:
+            a[op[1]] = AR.Unencodable()
+        except Exception:       # noqa
+            pass
+        b = AR.open_archive(ctx['cid'], ctx['root'], 'store')
+        b['probe'] = 'p'
+        ok = b['probe'] == 'p'
+        del b['probe']
+        return bool(ok)
     if name == 'len':
         return len(a)
     if name == 'keys':
